@@ -33,6 +33,11 @@ def stepC05 (st : DriverState) (fields : List String) : Option (DriverState × S
       | some b => some (st, s!"ok\t{if b then 1 else 0}")
       | none => some (st, "err\tOther")
     | _, _ => none
+  -- `Unit.as_coeff_unit` (`UnitV.asCoeffUnit`, theorem `asCoeffUnit_denotes_same`): the unit, then the coefficient
+  | ["c05.ascoeff", s1, o1, d1, c1, f1] =>
+    match parseUnitV s1 o1 d1 c1 f1 with
+    | some u => let r := u.asCoeffUnit; some (st, s!"{unitOut r.2}\t{bitsStr r.1}")
+    | none => none
   | ["c05.npaths"] =>
     some (st, s!"ok\t{Generated.C05Paths.mulPaths.length}\t{Generated.C05Paths.truedivPaths.length}\t{Generated.C05Paths.powPaths.length}")
   | _ => none
